@@ -114,28 +114,8 @@ func ruleSibClose(c *Ctx) {
 		c.R.Undecided("R-SIB/close", "", "instance-floor", fmt.Sprintf("only %d ClientProtocol.Close implementations found", n))
 	}
 	ruleRPCNames(c)
-	// server side: Control.Quit ends Serve: the handler reaches the function that closes DoneCh
-	quit := p.Fn("controlServer.Quit")
-	if quit == nil {
-		c.R.Undecided("R-SIB/close", "controlServer.Quit", "anchor", "function not found")
-	} else {
-		reach := p.ReachableFuncs([]*Func{quit}, false)
-		closes := false
-		for rf := range reach {
-			for _, call := range rf.Calls() {
-				if p.CalleeName(rf, call) == "builtin.close" {
-					if fv := SelField(rf.Pkg.TypesInfo, call.Args[0]); fv != nil && p.FieldName(fv) == "RPCServer.DoneCh" {
-						closes = true
-					}
-				}
-			}
-		}
-		if closes {
-			c.R.Hold("R-SIB/close", p.Pos(quit.Node()), quit.Name, "Quit closes RPCServer.DoneCh", "", true)
-		} else {
-			c.R.Violate("R-SIB/close", p.Pos(quit.Node()), quit.Name, "Quit closes RPCServer.DoneCh", "the net/rpc quit handler no longer ends Serve", nil)
-		}
-	}
+	// server side: Control.Quit ends Serve, but only after its reply is out
+	p.ruleQuitReply(c)
 	// gRPC controller Shutdown stops the server
 	if sh := p.Fn("grpcControllerServer.Shutdown"); sh != nil {
 		stops := false
@@ -573,5 +553,148 @@ func atomicIDs(c *Ctx) {
 	}
 	if nIds < 2 {
 		c.R.Undecided("R-GUARD/atomic", "", "instance-floor", "id counters not found")
+	}
+}
+
+// ruleQuitReply — net/rpc shutdown handshake on the plugin side.
+//
+// Closing RPCServer.DoneCh makes Serve return, which ends the plugin process.
+// (a) The Control.Quit handler must not do that synchronously: its reply is
+// written by net/rpc only after the handler returned, the process exit races
+// with it, and a client that loses the reply (io.ErrUnexpectedEOF) treats the
+// shutdown as failed and force-kills the plugin in the middle of its cleanup.
+// (b) Quit must still end Serve: the handler records the request in a field,
+// and the function serving the control connection closes DoneCh when that
+// field is set, after net/rpc's ServeConn on the control stream has returned
+// (the client hangs up the control stream once it has the reply).
+func (p *Prog) ruleQuitReply(c *Ctx) {
+	quit := p.Fn("controlServer.Quit")
+	if quit == nil {
+		c.R.Undecided("R-SIB/close", "controlServer.Quit", "anchor", "function not found")
+		return
+	}
+	closesDone := func(f *Func) bool {
+		for _, call := range f.Calls() {
+			if p.CalleeName(f, call) == "builtin.close" && len(call.Args) == 1 {
+				if fv := SelField(f.Pkg.TypesInfo, call.Args[0]); fv != nil && p.FieldName(fv) == "RPCServer.DoneCh" {
+					return true
+				}
+			}
+		}
+		return false
+	}
+	reachesClose := func(f *Func) bool {
+		for rf := range p.ReachableFuncs([]*Func{f}, false) {
+			if closesDone(rf) {
+				return true
+			}
+		}
+		return false
+	}
+	if reachesClose(quit) {
+		c.R.Violate("R-SIB/close", p.Pos(quit.Node()), quit.Name, "Quit replies before the server ends",
+			"the net/rpc quit handler closes RPCServer.DoneCh itself: Serve returns and the plugin process exits while net/rpc has not yet written the reply to this very call; the client then sees io.ErrUnexpectedEOF, treats the shutdown as failed and force-kills the plugin during its cleanup (socket files are left behind)", nil)
+		c.R.Hold("R-SIB/close", p.Pos(quit.Node()), quit.Name, "Quit ends Serve", "the handler reaches the close of RPCServer.DoneCh", true)
+		return
+	}
+	c.R.Hold("R-SIB/close", p.Pos(quit.Node()), quit.Name, "Quit replies before the server ends", "the handler does not reach the close of RPCServer.DoneCh synchronously", true)
+	// fields the handler sets
+	qinfo := quit.Pkg.TypesInfo
+	flags := map[*types.Var]bool{}
+	ast.Inspect(quit.Body, func(x ast.Node) bool {
+		switch st := x.(type) {
+		case *ast.AssignStmt:
+			for _, l := range st.Lhs {
+				if fv := SelField(qinfo, l); fv != nil {
+					flags[fv] = true
+				}
+			}
+		case *ast.CallExpr:
+			if strings.HasPrefix(p.CalleeName(quit, st), "sync/atomic.Store") && len(st.Args) == 2 {
+				if u, ok := ast.Unparen(st.Args[0]).(*ast.UnaryExpr); ok && u.Op == token.AND {
+					if fv := SelField(qinfo, u.X); fv != nil {
+						flags[fv] = true
+					}
+				}
+			}
+		}
+		return true
+	})
+	// the function serving the control connection
+	ok := false
+	why := "no function calls net/rpc.Server.ServeConn and afterwards ends the server when the field set by Quit is set"
+	for _, f := range p.Funcs {
+		if f.Decl == nil {
+			continue
+		}
+		info := f.Pkg.TypesInfo
+		g := p.Graph(f)
+		var serveN *Node
+		for _, call := range f.Calls() {
+			if p.CalleeName(f, call) == "net/rpc.Server.ServeConn" {
+				serveN = g.NodeOf(call)
+			}
+		}
+		if serveN == nil {
+			continue
+		}
+		after := g.ReachAfter(serveN, nil, nil)
+		// every ending call in this function comes after the serve call
+		early := false
+		var endNodes []*Node
+		for _, call := range f.Calls() {
+			ce := p.FnOf(asFunc(p.Callee(f, call)))
+			if ce == nil || !reachesClose(ce) {
+				continue
+			}
+			n := g.NodeOf(call)
+			if n == nil {
+				continue
+			}
+			endNodes = append(endNodes, n)
+			if !g.Dominates(serveN, n) {
+				early = true
+			}
+		}
+		if early {
+			why = "the server can be ended before the control connection was served"
+			continue
+		}
+		readsFlag := func(e ast.Expr) bool {
+			found := false
+			ast.Inspect(e, func(x ast.Node) bool {
+				if ex, isE := x.(ast.Expr); isE {
+					if fv := SelField(info, ex); fv != nil && flags[fv] {
+						found = true
+					}
+				}
+				return true
+			})
+			return found
+		}
+		for _, en := range endNodes {
+			if _, r := after[en]; !r {
+				continue
+			}
+			// reached only through an edge whose condition reads the flag
+			if g.OnlyViaEdge(en, func(e *Edge) bool {
+				if e.Cond == nil {
+					return false
+				}
+				if _, r := after[e.From]; !r {
+					return false
+				}
+				return readsFlag(e.Cond)
+			}) {
+				ok = true
+			} else {
+				why = "the server is ended after the control connection closes whether or not Quit was requested (a client that merely reconnects would end the plugin)"
+			}
+		}
+	}
+	if ok {
+		c.R.Hold("R-SIB/close", p.Pos(quit.Node()), quit.Name, "Quit ends Serve", "the handler records the request; the control-connection server closes RPCServer.DoneCh after net/rpc's ServeConn returned, iff the request was recorded", true)
+	} else {
+		c.R.Violate("R-SIB/close", p.Pos(quit.Node()), quit.Name, "Quit ends Serve", "the net/rpc quit request no longer ends Serve: "+why, nil)
 	}
 }
